@@ -453,6 +453,8 @@ class Analyzer:
                 if ob.startswith('&') or base.startswith('&'):
                     continue      # distinct named objects
                 del env[k]
+        if isinstance(val, V) and sym and (sym in val.le or sym in val.lt):
+            val = val.copy(le=val.le - {sym}, lt=val.lt - {sym})
         if isinstance(val, V) and val.tag == 'fresh0':
             env['$zero'] = frozenset(set(env.get('$zero', ())) | {key + '->', key + '['})
         if weak or key.endswith('[*]') or key.startswith('*'):
@@ -521,7 +523,10 @@ class Analyzer:
             key = self.path(e, env)
             if key is None:
                 return TOP
-            return self.get(env, key, e)
+            v = self.get(env, key, e)
+            if key.startswith('v') and key[1:].isdigit() and int_type_range(nd.get('t', '')) and key not in v.lt:
+                v = v.copy(le=v.le | {key})
+            return v
         if k in ('member', 'sub') or (k == 'un' and nd['op'] == '*'):
             for x in c:
                 if x:
@@ -934,8 +939,12 @@ class Analyzer:
             tmp = env.get('$tmp') or {}
             va = tmp.get(a) if a in tmp else self.peek(env, a)
             vb = tmp.get(b) if b in tmp else self.peek(env, b)
-            na = self.restrict(va, op, vb, self.sym_of(b, env))
-            nb = self.restrict(vb, {'<': '>', '<=': '>=', '>': '<', '>=': '<=', '==': '==', '!=': '!='}[op], va, self.sym_of(a, env))
+            sa, sb = self.sym_of(a, env), self.sym_of(b, env)
+            # symbolic contradiction: a op b against what is already known about a and b
+            if self.sym_contradiction(va, sa, op, vb, sb):
+                return None
+            na = self.restrict(va, op, vb, sb)
+            nb = self.restrict(vb, {'<': '>', '<=': '>=', '>': '<', '>=': '<=', '==': '==', '!=': '!='}[op], va, sa)
             if na.is_bottom() or nb.is_bottom():
                 return None
             self.assign_refined(env, a, va, na)
@@ -1029,6 +1038,25 @@ class Analyzer:
                 return f'{mk[0]}.{mk[1]}'
         return None
 
+    @staticmethod
+    def sym_contradiction(va, sa, op, vb, sb):
+        """is `a op b` impossible given the symbolic bounds already known (a<b, a<=b, b<a, b<=a)?"""
+        a_lt_b = sb is not None and sb in va.lt
+        a_le_b = a_lt_b or (sb is not None and sb in va.le)
+        b_lt_a = sa is not None and sa in vb.lt
+        b_le_a = b_lt_a or (sa is not None and sa in vb.le)
+        if op == '<':
+            return b_le_a
+        if op == '<=':
+            return b_lt_a
+        if op == '>':
+            return a_le_b
+        if op == '>=':
+            return a_lt_b
+        if op == '==':
+            return a_lt_b or b_lt_a
+        return False
+
     def restrict(self, v, op, w, wsym):
         """v restricted by  v op w"""
         lo, hi, lt, le = v.lo, v.hi, v.lt, v.le
@@ -1091,6 +1119,15 @@ class Analyzer:
             iv = self.peek(env, inner)
             self.assign_refined(env, inner, iv, iv.copy(lo=max(iv.lo, new.lo - cst), hi=min(iv.hi, new.hi - cst)))
             return
+        if nd['k'] == 'un' and nd['op'] in ('pre++', 'pre--', 'post++', 'post--'):
+            # the tested value is the variable's new value (pre) or its old one (post)
+            inner = nd['c'][0]
+            iv = self.peek(env, inner)
+            d = 0
+            if nd['op'].startswith('post'):
+                d = 1 if '++' in nd['op'] else -1
+            self.assign_refined(env, inner, iv, iv.copy(lo=max(iv.lo, new.lo + d), hi=min(iv.hi, new.hi + d)))
+            return
         if nd['k'] == 'call':
             tmp = dict(env.get('$tmp') or {})
             tmp[e] = new
@@ -1108,6 +1145,17 @@ class Analyzer:
             sv = dict(env.get('$sym') or {})
             sv[sym] = new
             env['$sym'] = sv
+            # transitive closure: whatever is bounded by this location inherits its new upper bounds
+            add_lt = (new.lt - (old.lt if old else frozenset()))
+            add_le = (new.le - (old.le if old else frozenset())) - {sym}
+            if add_lt or add_le:
+                for k2, v2 in list(env.items()):
+                    if not isinstance(v2, V) or k2 == key:
+                        continue
+                    if sym in v2.lt:
+                        env[k2] = v2.copy(lt=v2.lt | add_lt | add_le)
+                    elif sym in v2.le:
+                        env[k2] = v2.copy(lt=v2.lt | add_lt, le=(v2.le | add_le) - add_lt)
         self.eop_sweep(env, old, new)
 
     def symlo(self, env):
